@@ -2,7 +2,7 @@
 From Coq Require Import List Arith NArith Lia Bool ZifyN ZifyNat ZifyBool.
 From FS Require Import Sx Model.Path Model.Fs Model.RootPath Model.CopyFs Model.CopyFsSpec
   Proofs.Lex Proofs.PathP Proofs.FsP Proofs.RootPathStrP Proofs.FsCopyFrameP Proofs.FsCopyInvP
-  Proofs.FsCopySafeP Proofs.FsCopyLinksP Proofs.FsCopySysP Proofs.CopyFsP Proofs.CopyRecP Proofs.CopyFsRec2P Proofs.CopyFsTopP
+  Proofs.FsCopySafeP Proofs.FsCopyLinksP Proofs.FsCopySysP Proofs.CopyFsP Proofs.CopyFsNrP Proofs.CopyRecP Proofs.CopyFsRec2P Proofs.CopyFsTopP
   Proofs.CopyFsTop2P.
 From FS Require Proofs.RootPathP.
 Import ListNotations.
@@ -179,18 +179,50 @@ Section Top3.
     copy_root_path c f src_root src follow = inl sf -> sf = src_root.
   Proof. intros E H. unfold copy_root_path in H. rewrite E in H. simpl in H. inversion H; auto. Qed.
 
-  Lemma copy_sources_spec fuel o sl dst : forall srcs batches s s' res batches',
-    Ctx (s_fs s) -> lok s -> s_parents s = [] -> batches_ok (s_fs s) batches -> Forall (fun src => has_nul src = false) srcs ->
-    copy_sources fuel c o sl src_root (render dcs) dst srcs batches s = (s', res, batches') ->
-    Ctx (s_fs s') /\ batches_ok (s_fs s') batches'.
+  Section Reads.
+    Variable R : N -> Prop.
+    Variables SP SPN : bytes -> Prop.
+    Hypothesis HA : forall f p i, Ctx f -> SP p -> resolve_ino c f p false = inl i -> R i.
+    Hypothesis HB : forall f p i n, Ctx f -> SP p -> resolve_ino c f p false = inl i -> get f i = Some n ->
+      kind_is_link n = false -> SPN p.
+    Hypothesis HC : forall f p j, Ctx f -> SPN p -> resolve_ino c f p true = inl j -> R j.
+    Hypothesis HD : forall f p j pp es n, Ctx f -> SPN p -> resolve_ino c f p true = inl j ->
+      dir_of f j = Some (pp, es) -> In n (map fst es) -> SP (join2 p n).
+    Hypothesis HN : forall p, SPN p -> SP p.
+    Hypothesis HE : forall f src follow sf, Ctx f -> copy_root_path c f src_root src follow = inl sf -> SP sf.
+    Notation rok := (CopyRecP.rok R).
+    Notation pok := (CopyRecP.pok SPN).
+
+  (* prepareTargetDir: os.Lstat(srcFollowed) *)
+  Lemma ptd_reads k o sf src dest s s' r : Ctx (s_fs s) -> SP sf ->
+    prepare_target_dir k c o sf src dest s = (s', r) -> rok s -> rok s'.
   Proof.
-    induction srcs as [|src srcs IH]; intros batches s s' res batches' C L Pa Hb Hs H.
+    intros C Hsp H Rk. unfold prepare_target_dir in H.
+    rewrite bind_run, sys_run in H. cbn [fst snd] in H. rewrite sys_lstat_fs in H.
+    destruct (snd (sys_lstat c (s_fs s) sf)) as [|e|sino sfi| | |] eqn:Esf;
+      try (unfold fail in H; injection H as <- <-; exact Rk).
+    destruct (sys_lstat_ino c _ _ _ _ Esf) as [Elr _].
+    rewrite bind_run, log_read_run in H. cbn [s_fs s_links s_parents s_reads] in H.
+    match type of H with bind _ _ ?sx = _ => assert (Rx : rok sx) end.
+    { eapply rok_cons; [reflexivity| |exact Rk]. eapply HA; eauto. }
+    revert H. match goal with |- ?m ?sx = _ -> _ => intros H; eapply (rok_nr R m); [|exact H|exact Rx] end.
+    apply NR_bind; [apply NR_stat_opt|]. intros dfi. cbv zeta. apply NR_bind; [apply NR_mkdir_all|]. intros. apply NR_ret.
+  Qed.
+
+  Lemma copy_sources_spec_r fuel o sl dst : forall srcs batches s s' res batches',
+    Ctx (s_fs s) -> lok s -> s_parents s = [] -> batches_ok (s_fs s) batches -> Forall (fun src => has_nul src = false) srcs ->
+    rok s ->
+    copy_sources fuel c o sl src_root (render dcs) dst srcs batches s = (s', res, batches') ->
+    (Ctx (s_fs s') /\ batches_ok (s_fs s') batches') /\ rok s'.
+  Proof.
+    induction srcs as [|src srcs IH]; intros batches s s' res batches' C L Pa Hb Hs Rk H.
     - cbn [copy_sources] in H. inversion H; subst. auto.
     - cbn [copy_sources] in H. inversion Hs as [|? ? Hsn Hrest]; subst.
       (* the step: two RootPath calls (reads only), then prepareTargetDir *)
       rewrite bind_run in H. unfold get_fs at 1 in H.
       destruct (copy_root_path c (s_fs s) src_root src (o_follow o)) as [sf|e] eqn:Esf;
         [|cbn [lift_rp fail] in H; inversion H; subst; auto].
+      pose proof (HE _ _ _ _ C Esf) as Hsp.
       cbn [lift_rp] in H. rewrite bind_run in H. cbn [ret] in H. rewrite bind_run in H. unfold get_fs at 1 in H.
       destruct (root_path c (s_fs s) (render dcs) (clean dst)) as [dest|e] eqn:Ed;
         [|cbn [lift_rp fail] in H; inversion H; subst; auto].
@@ -200,8 +232,10 @@ Section Top3.
       { intros E. rewrite (copy_root_path_root _ _ _ _ E Esf). apply Hsr; auto. }
       destruct (prepare_target_dir fuel c o sf src (render (dcs ++ cs)) s) as [s1 [[d1 created]|e]] eqn:Ep.
       2:{ destruct (ptd_spec c f0 dr dcs fuel o sf src cs s s1 _ C Hcs Hnul Hlf Hsn Hsrc Ep) as (S1 & _ & _).
-          inversion H; subst. split; [apply S1|]. eapply batches_ok_keeps; [eapply stays_keeps; exact S1|exact Hb]. }
+          inversion H; subst. split; [|eapply ptd_reads; eauto].
+          split; [apply S1|]. eapply batches_ok_keeps; [eapply stays_keeps; exact S1|exact Hb]. }
       destruct (ptd_spec c f0 dr dcs fuel o sf src cs s s1 _ C Hcs Hnul Hlf Hsn Hsrc Ep) as (S1 & EL1 & P1).
+      assert (Rk1 : rok s1) by (eapply ptd_reads; eauto).
       destruct (P1 d1 created eq_refl) as (Td & Hcr).
       cbn [ret fst snd] in H.
       assert (C1 : Ctx (s_fs s1)) by apply S1.
@@ -211,34 +245,37 @@ Section Top3.
       { constructor; auto. eapply batches_ok_keeps; [eapply stays_keeps; exact S1|exact Hb]. }
       (* copier.copy *)
       assert (Hcopy : forall s2 r2, copy_rec fuel c o sl sf [] d1 false [] [] s1 = (s2, r2) ->
-                stays_ok dr s1 s2 r2 /\ (ok_res r2 -> s_parents s2 = [])).
+                (stays_ok dr s1 s2 r2 /\ (ok_res r2 -> s_parents s2 = [])) /\ rok s2).
       { intros s2 r2 E2. destruct Td as [-> Hdir|cs1 x dd -> H1 H2 H3 H4 Hc].
         - destruct fuel as [|k].
           + cbn [copy_rec] in E2. unfold fail in E2. inversion E2; subst.
-            split; [apply stays_stays_ok, stays_refl; auto|intros _; exact Pa1].
-          + eapply copy_rec_root_spec; eauto.
+            split; [|exact Rk1]. split; [apply stays_stays_ok, stays_refl; auto|intros _; exact Pa1].
+          + eapply (copy_rec_root_spec_r c f0 dr dcs R SP SPN HA HB HC HD HN); eauto.
         - change (FsCopySafeP.tpath dcs cs1 x) with (render (dcs ++ cs1 ++ [] ++ [x])) in E2.
-          destruct (copy_rec_spec c f0 dr dcs fuel o sl sf [] cs1 dd [] x false [] [] s1 s2 r2 C1 Hc) as (S2 & P2); auto.
+          destruct (copy_rec_spec_r c f0 dr dcs R SP SPN HA HB HC HD HN fuel o sl sf [] cs1 dd [] x false [] [] s1 s2 r2 C1 Hc) as ((S2 & P2) & Rk2); auto.
           { rewrite Pa1. reflexivity. }
+          { rewrite Pa1. constructor. }
+          split; [|exact Rk2].
           split; [eapply stays_ok_below; [exact Hc|exact S2]|].
           intros Hr. destruct (P2 Hr) as [Eq|[Eq _]]; rewrite Eq, Pa1; reflexivity. }
       destruct (copy_rec fuel c o sl sf [] d1 false [] [] s1) as [s2 [[]|e]] eqn:E2.
-      + destruct (Hcopy s2 _ eq_refl) as ((C2 & _ & L2 & K2) & P2).
+      + destruct (Hcopy s2 _ eq_refl) as (((C2 & _ & L2 & K2) & P2) & Rk2).
         eapply (IH (created :: batches) s2); eauto.
         * apply L2; auto. exists tt. reflexivity.
         * apply P2. exists tt. reflexivity.
         * eapply batches_ok_keeps; eauto.
-      + destruct (Hcopy s2 _ eq_refl) as ((C2 & _ & _ & K2) & _). inversion H; subst.
-        split; auto. eapply batches_ok_keeps; eauto.
+      + destruct (Hcopy s2 _ eq_refl) as (((C2 & _ & _ & K2) & _) & Rk2). inversion H; subst.
+        split; [|exact Rk2]. split; auto. eapply batches_ok_keeps; eauto.
   Qed.
 
   (* ---- Copy ---- *)
-  Lemma copy_top_spec fuel o osl src dst matches s s' res :
+  Lemma copy_top_spec_r fuel o osl src dst matches s s' res :
     Ctx (s_fs s) -> lok s -> s_parents s = [] -> has_nul src = false ->
     (forall l, matches = Some l -> Forall (fun m => has_nul m = false) l) ->
-    copy_top fuel c o osl src_root src (render dcs) dst matches s = (s', res) -> Ctx (s_fs s').
+    rok s ->
+    copy_top fuel c o osl src_root src (render dcs) dst matches s = (s', res) -> Ctx (s_fs s') /\ rok s'.
   Proof.
-    intros C L Pa Hsn Hm H. unfold copy_top in H.
+    intros C L Pa Hsn Hm Rk H. unfold copy_top in H.
     set (ensure := match split_path dst with (d, fl) => if nonempty fl && negb (bytes_eqb fl s_dot) && negb (bytes_eqb fl s_dotdot) then d else dst end) in H.
     (* the first MkdirAll *)
     assert (Hpre : forall s1 r1,
@@ -260,26 +297,50 @@ Section Top3.
         + destruct (mkdir_all_spec c f0 dr dcs fuel o cs s s2 _ C Hcs Hnul Hlf Em) as (S2 & _ & _).
           inversion E; subst. split; [apply S2|]. split; [apply S2|]. split; [apply S2|]. discriminate.
       - cbn [ret] in E. inversion E; subst. split; [exact C|split; [auto|split; [reflexivity|]]]. intros bs Hbs. inversion Hbs; subst. constructor. }
+    assert (Hprer : NR (if nonempty ensure then
+                 f1 <~ get_fs ;; p <~ lift_rp (root_path c f1 (render dcs) ensure) ;;
+                 created <~ mkdir_all fuel c o p ;; ret [created]
+               else ret [])).
+    { destruct (nonempty ensure); [|apply NR_ret]. apply NR_bind; [apply NR_get_fs|]. intros f1.
+      apply NR_bind; [unfold lift_rp; destruct (root_path c f1 (render dcs) ensure); [apply NR_ret|apply NR_fail]|]. intros p.
+      apply NR_bind; [apply NR_mkdir_all|]. intros. apply NR_ret. }
     destruct ((if nonempty ensure then
                  f1 <~ get_fs ;; p <~ lift_rp (root_path c f1 (render dcs) ensure) ;;
                  created <~ mkdir_all fuel c o p ;; ret [created]
                else ret []) s) as [s1 [batches0|e]] eqn:Epre.
-    2:{ destruct (Hpre s1 _ eq_refl) as (Cx & _). inversion H; subst. exact Cx. }
+    2:{ destruct (Hpre s1 _ eq_refl) as (Cx & _). inversion H; subst. split; [exact Cx|]. eapply rok_nr; eauto. }
+    assert (Rk1 : rok s1) by (eapply rok_nr; eauto).
     destruct (Hpre s1 _ eq_refl) as (C1 & L1 & Pa1 & B1). specialize (B1 batches0 eq_refl). specialize (L1 L).
     rewrite Pa in Pa1.
+    assert (Hfix : forall bs2 s2, Ctx (s_fs s2) -> batches_ok (s_fs s2) bs2 -> rok s2 ->
+              Ctx (s_fs (fst (run_fixes c (render dcs) (o_utime o) bs2 s2))) /\ rok (fst (run_fixes c (render dcs) (o_utime o) bs2 s2))).
+    { intros bs2 s2 C2 B2 Rk2. split; [apply run_fixes_spec; auto|].
+      destruct (run_fixes c (render dcs) (o_utime o) bs2 s2) as [s3 r3] eqn:E3. cbn [fst].
+      eapply rok_nr; [apply NR_run_fixes|exact E3|exact Rk2]. }
     assert (Hloop : forall sl srcs, Forall (fun m => has_nul m = false) srcs -> forall s2 res2 bs2,
               copy_sources fuel c o sl src_root (render dcs) dst srcs batches0 s1 = (s2, res2, bs2) ->
-              Ctx (s_fs (fst (run_fixes c (render dcs) (o_utime o) bs2 s2)))).
+              Ctx (s_fs (fst (run_fixes c (render dcs) (o_utime o) bs2 s2))) /\ rok (fst (run_fixes c (render dcs) (o_utime o) bs2 s2))).
     { intros sl srcs Hs s2 res2 bs2 E.
-      destruct (copy_sources_spec fuel o sl dst srcs batches0 s1 s2 res2 bs2 C1 L1 Pa1 B1 Hs E) as (C2 & B2).
-      apply run_fixes_spec; auto. }
+      destruct (copy_sources_spec_r fuel o sl dst srcs batches0 s1 s2 res2 bs2 C1 L1 Pa1 B1 Hs Rk1 E) as ((C2 & B2) & Rk2).
+      apply Hfix; auto. }
     destruct osl as [sl|].
-    2:{ (* invalid patterns *) destruct matches as [[|m ms]|]; inversion H; subst; apply run_fixes_spec; auto. }
+    2:{ (* invalid patterns *) destruct matches as [[|m ms]|]; inversion H; subst; apply Hfix; auto. }
     destruct matches as [[|m ms]|].
-    - (* no match *) inversion H; subst. apply run_fixes_spec; auto.
+    - (* no match *) inversion H; subst. apply Hfix; auto.
     - destruct (copy_sources fuel c o sl src_root (render dcs) dst (m :: ms) batches0 s1) as [[s2 res2] bs2] eqn:E2.
       inversion H; subst. eapply (Hloop sl (m :: ms)); [apply Hm; reflexivity|exact E2].
     - destruct (copy_sources fuel c o sl src_root (render dcs) dst [src] batches0 s1) as [[s2 res2] bs2] eqn:E2.
       inversion H; subst. eapply (Hloop sl [src]); [constructor; auto|exact E2].
+  Qed.
+  End Reads.
+
+  Lemma copy_top_spec fuel o osl src dst matches s s' res :
+    Ctx (s_fs s) -> lok s -> s_parents s = [] -> has_nul src = false ->
+    (forall l, matches = Some l -> Forall (fun m => has_nul m = false) l) ->
+    copy_top fuel c o osl src_root src (render dcs) dst matches s = (s', res) -> Ctx (s_fs s').
+  Proof.
+    intros C L Pa Hsn Hm H.
+    pose proof (copy_top_spec_r (fun _ => True) (fun _ => True) (fun _ => True)) as G.
+    eapply G; eauto; try (intros; exact I). intros i _. exact I.
   Qed.
 End Top3.
